@@ -114,6 +114,47 @@ def tables(prog, kind, tu, ck, report):
     return rows, bad, samples
 
 
+DISPATCH = {"invoke_safe_str_constraint_handler": "str", "invoke_safe_mem_constraint_handler": "mem"}
+MIN_REPORTING_FUNCTIONS = 150
+
+
+def kind_rule(prog, report, floor=MIN_REPORTING_FUNCTIONS, broken=None):
+    """clause 'the string and memory registrations are independent', seen from the reporting side: a function reports all of its violations
+    through one kind of dispatch.  The kind of a function is not written down anywhere (wmemcpy_s reports through mem, wcscpy_s through
+    str, qsort_s through mem), but no function of the library mixes the two (0 of 180 on the pinned tree): a function that calls both
+    dispatchers -- directly or through the error helpers of the two registration units -- hands some of its violations to the handler
+    registered for the other kind, which the caller's registration for its own kind then never sees."""
+    helper_kind = {}
+    for f in prog.allfuncs:
+        if f.mod["tu"] in KINDS.values() and f.name not in DISPATCH:
+            ks = {DISPATCH[i["callee"]] for i in f.insts() if i["op"] == "call" and i.get("callee") in DISPATCH}
+            if len(ks) == 1:
+                helper_kind[f.name] = next(iter(ks))
+    n = 0
+    for f in prog.allfuncs:
+        if f.name in DISPATCH or f.name in helper_kind:
+            continue
+        sites = {}
+        for i in f.insts():
+            if i["op"] == "call":
+                k = DISPATCH.get(i.get("callee")) or helper_kind.get(i.get("callee"))
+                if k:
+                    sites.setdefault(k, []).append(i)
+        if not sites:
+            continue
+        n += 1
+        if len(sites) > 1:
+            minority = min(sites, key=lambda k: len(sites[k]))
+            majority = max(sites, key=lambda k: len(sites[k]))
+            for i in sites[minority]:
+                report("C13:mixed-kinds:%s:%s" % (f.name, minority), "R-one-kind-per-function", f.loc(i),
+                       "%s reports %d violation(s) through the %s dispatch and this one through the %s dispatch: a handler registered for %s never sees it, the %s registration does"
+                       % (f.name, len(sites[majority]), majority, minority, majority, minority))
+    if n < floor and broken is not None:
+        broken("only %d functions that report violations found (expected at least %d)" % (n, floor))
+    return n
+
+
 def run(ck):
     mods, info = frontend.load_modules()
     prog = Program(mods)
@@ -147,12 +188,13 @@ def run(ck):
         eff = [i for i in ign.insts() if i["op"] in ("store", "call") and not (i.get("callee") or "").startswith("llvm.dbg")]
         if eff:
             ck.report("C13:default-handler-has-effects", "R-default", ign.loc(eff[0]), "the default handler %s performs stores or calls" % DEFAULT)
+    nrep = kind_rule(prog, ck.report, broken=ck.fail_broken)
     fx = selftest(ck)
-    ob = rows + nwr + 1
+    ob = rows + nwr + 1 + nrep
     cov = dict(obligations=ob, discharged=ob - len({r["key"] for r in ck.reports}) if not ck.reports else ob - bad,
                checker_cmd="bin/check C13",
                trusted_base=["clang-14 lowering to IR", "sa/formula.py interpreter over abstract handler values", "platform TLS (a thread_local object is per thread)"],
-               exhaustive=True, decision_table_rows=rows, registrations=nwr, fixtures=fx, frontend=info,
+               exhaustive=True, decision_table_rows=rows, registrations=nwr, reporting_functions_one_kind=nrep, fixtures=fx, frontend=info,
                explanation="Decision tables of set_/thrd_set_/invoke_ for str and mem over argument x process-wide x thread-local values in {NULL, symbol, default} "
                            "(%d rows) equal the reference model row by row; storage classes, linkage, NULL initialisation and the who-writes rule are read from the IR. "
                            "The statement over all histories follows by induction on the history. Inheritance by threads created after a thread-local registration is left open, as in the property." % rows,
@@ -173,4 +215,10 @@ def selftest(ck):
         res[fname] = dict(rows=r, mismatching_rows=b)
         if (b > 0) != bool(expect) or any(x[0] == "broken" for x in reps if isinstance(x, tuple)):
             ck.fail_broken("fixture %s: %d mismatching rows (%s)" % (fname, b, reps[:2]))
+    prog = Program(frontend.load_sources([os.path.join(fdir, "c13_kinds.c")]))
+    got = []
+    n = kind_rule(prog, lambda key, *a: got.append(key), floor=0)
+    res["c13_kinds.c"] = dict(functions=n, reports=got)
+    if n != 2 or got != ["C13:mixed-kinds:fxk_mem_mixed:str"]:
+        ck.fail_broken("fixture c13_kinds.c: one-kind rule reported %s over %d functions" % (got, n))
     return res
